@@ -6,10 +6,11 @@ PRELUDE = '''int x = 0;
 empty !f() { write('f'); !truth_is_defeat(x == 1); write('F'); }
 empty !g() { preempt { x = 1; write('g'); } write('h'); !truth_is_defeat(x == 0); write('G'); }
 empty !r(int n) { write('r'); if (n > 0) { preempt { write('R'); return; } !r(n - 1); } !truth_is_defeat(x == 2); write('e'); }
+empty !w(int n) { preempt { write('P'); write(n); } if (n > 0) { !w(n - 1); } !truth_is_defeat(x != 7); write('W'); }
 '''
 
 # ------------------------------------------------------------------------------------------------ core enumeration
-LEAVES = ['o', 's1', 's2', 'd', 't0', 't1', 'cf', 'cg', 'cr']
+LEAVES = ['o', 's1', 's2', 'd', 't0', 't1', 'cf', 'cg', 'cr', 'cw']
 
 
 def bodies(n, depth, leaves=LEAVES):
@@ -82,6 +83,8 @@ class R:
             return '!f();'
         if k == 'cg':
             return '!g();'
+        if k == 'cw':
+            return '!w(1);'
         if k == 'cr':
             return '!r(2);'
         if k == 'p':
@@ -126,7 +129,7 @@ def core_family(seed, tier):
               ('stop', (('cf',), ('t1',)), (('s1',), ('o',))),            # stop fired from inside a defeat function
               ('stop', (('p', (('o',),)), ('t0',)), (('o',),)),           # preempt resolved inside a stop try
               ('undo', (('cg',),), (('o',),))]
-    seconds = [b for b in bodies(2 if tier == 'quick' else 3, 1) if any(s[0] in ('cf', 'cg', 'cr', 'p') or s[0] == 'i' for s in b) or any(s[0] in ('d', 't0', 't1') for s in b)]
+    seconds = [b for b in bodies(2 if tier == 'quick' else 3, 1) if any(s[0] in ('cf', 'cg', 'cr', 'cw', 'p') or s[0] == 'i' for s in b) or any(s[0] in ('d', 't0', 't1') for s in b)]
     pairs = [(f, k2, b2) for f in firsts for k2 in ('undo', 'stop') for b2 in seconds]
     if tier == 'quick':
         rnd.shuffle(pairs)
@@ -213,6 +216,11 @@ empty @is_you(int a, int b) {
   try { !truth_is_defeat(false); write('7'); } undo { write('g'); }
   try { !truth_is_defeat(a == b and b == 5); write('8'); } stop { write('h'); }
 }''', [[a, b] for a in (0, 1, 5, -1) for b in (0, 5, 2)]),
+    ('forced_preempt_in_defeat_fn', '''int x = 0;
+empty !deep(int n) { preempt { write('p'); write(n); } if (n > 0) { !deep(n - 1); } write('d'); !truth_is_defeat(x != 5); write('k'); }
+empty !mixed(int n) { if (n == 1) { preempt { write('q'); x = 5; } } else { preempt { write('z'); } } !truth_is_defeat(x != 5); write('m'); }
+empty @is_you(int n, int x0) { x = x0; try { write('t'); !deep(n); write('n'); } %(kind)s { write('h'); } x = x0; try { write('T'); !mixed(n); write('N'); } %(kind)s { write('H'); } write(x); }''',
+     [[n, x0] for n in (0, 1, 2) for x0 in (0, 5)]),
     ('halting_problem', '''empty @is_you(int a) {
   try { write('L'); int i = 0; while (i < a) { i += 1; } if (a < 0) { while (true) {} } !is_defeat(); } undo { write('T'); }
   write('>');
